@@ -3,6 +3,8 @@ package props
 import (
 	"os"
 	"path/filepath"
+	"strings"
+	"unicode/utf8"
 
 	"pgregory.net/rapid"
 	"verif.local/h/ev"
@@ -22,6 +24,17 @@ type C13Case struct {
 
 func genC13(t *rapid.T) C13Case {
 	g := genAnyGrammar(t, false)
+	if len(g.Prods) > 0 && rapid.IntRange(0, 2).Draw(t, "hostileLiteral") == 0 {
+		// a literal with awkward content (backslashes, $, %, …) in the syntax part
+		hl := gen.HostileLit(rapid.IntRange(0, gen.NumHostileLits()-1).Draw(t, "hostileIdx"))
+		dup := false
+		for _, l := range g.StringLits() {
+			dup = dup || l == hl.Name
+		}
+		if !dup && !strings.ContainsAny(hl.Name, "\x00\n\r") && utf8.ValidString(hl.Name) {
+			g.Prods[0].Alts = append(g.Prods[0].Alts, gr.Alt_{Syms: []gr.Sym{hl, hl}})
+		}
+	}
 	if len(g.Prods) > 0 && rapid.Bool().Draw(t, "withActions") {
 		gen.AddActions(t, g, gen.SynOpts{NoTokCast: true})
 	}
